@@ -281,11 +281,11 @@ func ruleLex(c *Ctx) {
 		c.R.Anchor("lexer.next")
 	}
 	if mv := c.FuncDecl("parser/pos", "Pos.Move"); mv != nil {
-		s := sx(mv.Body.List)
-		okMv := len(mv.Body.List) == 2 && strings.HasPrefix(s, "[(IncDecStmt (SelectorExpr p Sel:Idx) Tok:++)") &&
-			strings.Contains(s, "Cond:(BinaryExpr r Op:== Y:'\\n')") &&
-			strings.Contains(s, "Body:(BlockStmt [(IncDecStmt (SelectorExpr p Sel:Line) Tok:++) (AssignStmt Lhs:[(SelectorExpr p Sel:Col)] Tok:= Rhs:[0])])") &&
-			strings.Contains(s, "Else:(BlockStmt [(IncDecStmt (SelectorExpr p Sel:Col) Tok:++)])")
+		s := c.sxN(mv, mv.Body.List)
+		okMv := len(mv.Body.List) == 2 && strings.HasPrefix(s, "[(IncDecStmt (SelectorExpr $r Sel:Idx) Tok:++)") &&
+			strings.Contains(s, "Cond:(BinaryExpr $p0 Op:== Y:'\\n')") &&
+			strings.Contains(s, "Body:(BlockStmt [(IncDecStmt (SelectorExpr $r Sel:Line) Tok:++) (AssignStmt Lhs:[(SelectorExpr $r Sel:Col)] Tok:= Rhs:[0])])") &&
+			strings.Contains(s, "Else:(BlockStmt [(IncDecStmt (SelectorExpr $r Sel:Col) Tok:++)])")
 		c.R.Check(okMv, "parser/pos.Pos.Move", "LEX-4 Idx++ always; newline: Line++, Col=0; else Col++", mv.Pos(), "cursor arithmetic as specified", "Move no longer advances Idx once per rune with line/column bookkeeping on newline")
 	} else {
 		c.R.Anchor("pos.Pos.Move")
@@ -464,8 +464,8 @@ func ruleParse(c *Ctx) {
 			c.R.Anchor("parser.grammar." + m)
 			continue
 		}
-		s := sx(fd.Body.List)
-		okS := strings.Contains(s, "Index:k)") && strings.Contains(s, "[bp f]")
+		s := c.sxN(fd, fd.Body.List)
+		okS := strings.Contains(s, "Index:$p0)") && strings.Contains(s, "[$p1 $p2]")
 		c.R.Check(okS, "parser.grammar."+m, "PARSE-1 stores {bp, handler} under the kind", fd.Pos(), "table[k] = {bp, f}", "registration does not store the given power and handler under the given kind")
 	}
 	for _, m := range []string{"infixRight", "infixLeft", "postfix"} {
@@ -475,7 +475,7 @@ func ruleParse(c *Ctx) {
 			continue
 		}
 		calls := c.callsTo(fd.Body, "parser.grammar.infix")
-		okD := len(calls) == 1 && sx(calls[0].Args) == "[k bp f]"
+		okD := len(calls) == 1 && c.sxN(fd, calls[0].Args) == "[$p0 $p1 $p2]"
 		c.R.Check(okD, "parser.grammar."+m, "PARSE-1 delegates to infix(k, bp, f)", fd.Pos(), "same table", "does not delegate unchanged to infix")
 	}
 
@@ -1129,16 +1129,37 @@ func ruleDesugar(c *Ctx) {
 		if last == nil {
 			return "", cc
 		}
-		return c.sxInl(last.Results[0], d), cc
+		// inline single-assignment locals, then print name-independently ($e = the switch symbol)
+		depth := 0
+		roles := c.localNames(fd, fd)
+		var sub func(n ast.Node) (string, bool)
+		sub = func(n ast.Node) (string, bool) {
+			id, ok := n.(*ast.Ident)
+			if !ok {
+				return "", false
+			}
+			o := c.objOf(id)
+			if df, ok := d[o]; ok && depth < 20 {
+				depth++
+				r := sxWith(df, sub)
+				depth--
+				return r, true
+			}
+			if r, ok := roles[o]; ok && (r == "$e" || strings.HasPrefix(r, "$p")) {
+				return r, true
+			}
+			return "", false
+		}
+		return sxWith(last.Results[0], sub), cc
 	}
-	D := func(s string) string { return "(CallExpr Fun:Desugar Args:[(SelectorExpr e Sel:" + s + ")])" }
+	D := func(s string) string { return "(CallExpr Fun:Desugar Args:[(SelectorExpr $e Sel:" + s + ")])" }
 	if s, cc := inl("parser/ast.BinaryExpr"); cc != nil {
 		c.R.Check(strings.Contains(s, "Elts:["+D("LHS")+" "+D("RHS")+"]"), name, "DS-4 binary operands [LHS, RHS]", cc.Pos(), "source order kept", "binary operands are not passed as [Desugar(LHS), Desugar(RHS)]")
-		c.R.Check(strings.Contains(s, "Args:[(CallExpr Fun:(SelectorExpr ast Sel:Var) Args:[(SelectorExpr e Sel:Name)"), name, "DS-5 binary operator name becomes the callee", cc.Pos(), "callee = ast.Var(e.Name)", "callee of the rewritten call is not the operator's name")
+		c.R.Check(strings.Contains(s, "Args:[(CallExpr Fun:(SelectorExpr ast Sel:Var) Args:[(SelectorExpr $e Sel:Name)"), name, "DS-5 binary operator name becomes the callee", cc.Pos(), "callee = ast.Var(e.Name)", "callee of the rewritten call is not the operator's name")
 	}
 	if s, cc := inl("parser/ast.UnaryExpr"); cc != nil {
 		c.R.Check(strings.Contains(s, "Elts:["+D("LHS")+"]"), name, "DS-4 unary operand", cc.Pos(), "one desugared operand", "unary operand is not passed as [Desugar(LHS)]")
-		c.R.Check(strings.Contains(s, "Args:[(CallExpr Fun:(SelectorExpr ast Sel:Var) Args:[(SelectorExpr e Sel:Name)"), name, "DS-5 unary operator name becomes the callee", cc.Pos(), "callee = ast.Var(e.Name)", "callee of the rewritten call is not the operator's name")
+		c.R.Check(strings.Contains(s, "Args:[(CallExpr Fun:(SelectorExpr ast Sel:Var) Args:[(SelectorExpr $e Sel:Name)"), name, "DS-5 unary operator name becomes the callee", cc.Pos(), "callee = ast.Var(e.Name)", "callee of the rewritten call is not the operator's name")
 	}
 	if s, cc := inl("parser/ast.TenaryExpr"); cc != nil {
 		c.R.Check(strings.Contains(s, "Elts:["+D("Left")+" "+D("Mid")+" "+D("Right")+"]"), name, "DS-4 ?: operands [Left, Mid, Right]", cc.Pos(), "condition, then, else", "?: operands are not passed as [Left, Mid, Right]")
@@ -1162,19 +1183,20 @@ func ruleDesugar(c *Ctx) {
 		if ifm == nil {
 			c.R.Bad(name, "DS-4 method call branch", cc.Pos(), "no `if mem, ok := e.Callee.(*ast.MemberExpr)` branch")
 		} else {
-			s := sx(ifm.Body)
-			recvFirst := strings.Contains(s, "(AssignStmt Lhs:[(IndexExpr args Index:0)] Tok:= Rhs:[(CallExpr Fun:Desugar Args:[(SelectorExpr mem Sel:Obj)])])")
-			rest := strings.Contains(s, "(RangeStmt Key:i Value:arg Tok::= (SelectorExpr e Sel:Args) Body:(BlockStmt [(AssignStmt Lhs:[(IndexExpr args Index:(BinaryExpr i Op:+ Y:1))] Tok:= Rhs:[(CallExpr Fun:Desugar Args:[arg])])]))")
-			size := strings.Contains(s, "Args:[(ArrayType Elt:(SelectorExpr ast Sel:Expr)) (BinaryExpr (CallExpr Fun:len Args:[(SelectorExpr e Sel:Args)]) Op:+ Y:1)]")
+			// name-independent: the member symbol of the `if mem, ok := ..` is the first variable of the if statement
+			s := c.sxN(fd, ifm)
+			recvFirst := strings.Contains(s, "(AssignStmt Lhs:[(IndexExpr $2 Index:0)] Tok:= Rhs:[(CallExpr Fun:Desugar Args:[(SelectorExpr $0 Sel:Obj)])])")
+			rest := strings.Contains(s, "(RangeStmt Key:$3 Value:$4 Tok::= (SelectorExpr $e Sel:Args) Body:(BlockStmt [(AssignStmt Lhs:[(IndexExpr $2 Index:(BinaryExpr $3 Op:+ Y:1))] Tok:= Rhs:[(CallExpr Fun:Desugar Args:[$4])])]))")
+			size := strings.Contains(s, "(AssignStmt Lhs:[$2] Tok::= Rhs:[(CallExpr Fun:make Args:[(ArrayType Elt:(SelectorExpr ast Sel:Expr)) (BinaryExpr (CallExpr Fun:len Args:[(SelectorExpr $e Sel:Args)]) Op:+ Y:1)])])")
 			c.R.Check(recvFirst && rest && size, name, "DS-4 o.f(args): receiver first, then arguments ascending", ifm.Pos(), "args[0] = Desugar(receiver); args[i+1] = Desugar(arg_i)", "receiver/argument order of the method-call rewrite is not receiver, arg0, arg1, ...")
-			c.R.Check(strings.Contains(s, "Fun:(SelectorExpr ast Sel:Var) Args:[(SelectorExpr (SelectorExpr mem Sel:Field) Sel:Name)"), name, "DS-5 method name becomes the callee", ifm.Pos(), "callee = ast.Var(mem.Field.Name)", "callee of the method-call rewrite is not the member's name")
+			c.R.Check(strings.Contains(s, "Fun:(SelectorExpr ast Sel:Var) Args:[(SelectorExpr (SelectorExpr $0 Sel:Field) Sel:Name)"), name, "DS-5 method name becomes the callee", ifm.Pos(), "callee = ast.Var(mem.Field.Name)", "callee of the method-call rewrite is not the member's name")
 			// plain branch
 			if eb, ok := ifm.Else.(*ast.BlockStmt); ok {
-				s2 := sx(eb)
-				okArgs := strings.Contains(s2, "(RangeStmt Key:i Value:arg Tok::= (SelectorExpr e Sel:Args) Body:(BlockStmt [(AssignStmt Lhs:[(IndexExpr args Index:i)] Tok:= Rhs:[(CallExpr Fun:Desugar Args:[arg])])]))")
+				s2 := c.sxN(fd, eb)
+				okArgs := strings.Contains(s2, "(RangeStmt Key:$1 Value:$2 Tok::= (SelectorExpr $e Sel:Args) Body:(BlockStmt [(AssignStmt Lhs:[(IndexExpr $0 Index:$1)] Tok:= Rhs:[(CallExpr Fun:Desugar Args:[$2])])]))")
 				c.R.Check(okArgs, name, "DS-4 f(args): arguments ascending", eb.Pos(), "args[i] = Desugar(arg_i)", "arguments of a plain call are not desugared in place order")
 				// DS-2: callee := Desugar(e.Callee) may itself be a MemberExpr (from a parenthesised member) -> result is a redex
-				if strings.Contains(s2, "Rhs:[(CallExpr Fun:Desugar Args:[(SelectorExpr e Sel:Callee)])]") {
+				if strings.Contains(s2, "Rhs:[(CallExpr Fun:Desugar Args:[(SelectorExpr $e Sel:Callee)])]") {
 					guarded := strings.Contains(s2, "MemberExpr")
 					c.R.Check(guarded, name, "DS-2 callee of the rebuilt call is not a member expression", eb.Pos(), "the rebuilt call is in normal form",
 						"Desugar(e.Callee) can return a MemberExpr (a parenthesised member: Group is dropped), and Call(Member, ..) is itself rewritten by this function: the output is not a fixed point ((o.f)(1) -> o.f(1) -> f(o, 1))")
@@ -1183,10 +1205,10 @@ func ruleDesugar(c *Ctx) {
 		}
 	}
 	if s, cc := inl("parser/ast.SubscriptExpr"); cc != nil {
-		c.R.Check(strings.Contains(s, "Args:["+D("Var")+" "+D("Idx")+" (SelectorExpr e Sel:DBGCol)"), name, "DS-4 subscript (Var, Idx) and column kept", cc.Pos(), "container then index", "subscript operands/column are not carried over in order")
+		c.R.Check(strings.Contains(s, "Args:["+D("Var")+" "+D("Idx")+" (SelectorExpr $e Sel:DBGCol)"), name, "DS-4 subscript (Var, Idx) and column kept", cc.Pos(), "container then index", "subscript operands/column are not carried over in order")
 	}
 	if s, cc := inl("parser/ast.MemberExpr"); cc != nil {
-		c.R.Check(strings.Contains(s, "Args:["+D("Obj")+" (SelectorExpr e Sel:Field) (SelectorExpr e Sel:DBGCol)"), name, "DS-4 member (Obj, Field) and column kept", cc.Pos(), "object then field", "member operands/column are not carried over")
+		c.R.Check(strings.Contains(s, "Args:["+D("Obj")+" (SelectorExpr $e Sel:Field) (SelectorExpr $e Sel:DBGCol)"), name, "DS-4 member (Obj, Field) and column kept", cc.Pos(), "object then field", "member operands/column are not carried over")
 	}
 	if s, cc := inl("parser/ast.GroupExpr"); cc != nil {
 		c.R.Check(s == D("SubExpr"), name, "DS-1 parentheses are dropped", cc.Pos(), "(e) means e", "group is not replaced by its desugared content")
